@@ -7,13 +7,20 @@ package main
 // construct searches anchored at a known function also look inside it.
 
 import (
-	"strings"
 	"golang.org/x/tools/go/ssa"
+	"strings"
 )
 
 func (c *Ctx) isNew(fn *ssa.Function) bool {
-	if fn == nil || fn.Blocks == nil || fn.Parent() != nil {
+	if fn == nil || fn.Blocks == nil {
 		return false
+	}
+	if fn.Parent() != nil {
+		// a local closure that is only called directly (a named local helper), not one passed around
+		if rootFn(fn).Pkg != c.Pkg || c.allKnown || knownFuncs[c.fname(fn)] {
+			return false
+		}
+		return c.calledOnly(fn)
 	}
 	if fn.Pkg != c.Pkg {
 		return false
@@ -403,4 +410,48 @@ func rootFn(fn *ssa.Function) *ssa.Function {
 // or a new helper running only on anchor's behalf.
 func (c *Ctx) actsForC(fn, anchor *ssa.Function) bool {
 	return c.actsFor(rootFn(fn), anchor)
+}
+
+// calledOnly: every use of the closure fn is a direct call of it (never stored, passed or returned).
+func (c *Ctx) calledOnly(fn *ssa.Function) bool {
+	if c.calledOnlyMemo == nil {
+		c.calledOnlyMemo = map[*ssa.Function]bool{}
+	}
+	if v, ok := c.calledOnlyMemo[fn]; ok {
+		return v
+	}
+	ok := false
+	parent := fn.Parent()
+	if parent != nil {
+		ok = true
+		n := 0
+		for _, b := range parent.Blocks {
+			for _, in := range b.Instrs {
+				mc, isMC := in.(*ssa.MakeClosure)
+				if !isMC || mc.Fn != ssa.Value(fn) {
+					continue
+				}
+				n++
+				if refs := mc.Referrers(); refs != nil {
+					for _, r := range *refs {
+						switch x := r.(type) {
+						case *ssa.DebugRef:
+						case ssa.CallInstruction:
+							if x.Common().Value != ssa.Value(mc) {
+								ok = false // passed as an argument
+							}
+						default:
+							ok = false
+						}
+					}
+				}
+			}
+		}
+		if n == 0 {
+			// a closure without free variables is referenced as a plain function value
+			ok = false
+		}
+	}
+	c.calledOnlyMemo[fn] = ok
+	return ok
 }
